@@ -372,6 +372,9 @@ pub(crate) fn finalize_insertion_ctx(insertion_ctx: &mut InsertionContext) {
     finalize_unassigned(insertion_ctx, UnassignmentInfo::Unknown);
 
     insertion_ctx.problem.goal.accept_solution_state(&mut insertion_ctx.solution);
+
+    // NOTE a route which was added to give duration-limited vehicles a chance may stay without jobs
+    insertion_ctx.solution.remove_empty_routes();
 }
 
 pub(crate) fn apply_insertion_success(insertion_ctx: &mut InsertionContext, success: InsertionSuccess) {
